@@ -149,6 +149,20 @@ def run_cases(chk, binp, cases, pf_ok, pf):
     seqs = []
     for i in range(min(len(docs_only), 16 if chk.tier == "quick" else 100)):
         seqs.append({"id": i, "docs": [rng.choice(docs_only) for _ in range(rng.randint(2, 4))], "cont": rng.random() < 0.5})
+    # directed: what a validator keeps from a document whose references resolve (the expanded document, its analyzer) must not
+    # be what a following document with a dangling reference is judged with, nor the other way round (continue-on-errors: the
+    # only mode that goes on after the reference check)
+    okj = [j for j in J if "doc" in j["case"] and j["runs"].get("cont=true,strict=true", {}).get("outcome") == "ok"]
+    dangling = [j["case"]["doc"] for j in okj if any(UNRESOLVED_RE.match(m) for m in j["runs"]["cont=true,strict=true"]["errors"])]
+    resolving = [j for j in okj if not any(UNRESOLVED_RE.match(m) for m in j["runs"]["cont=true,strict=true"]["errors"])]
+    resolving_bad = [j["case"]["doc"] for j in resolving if j["runs"]["cont=true,strict=true"]["errors"]] or [j["case"]["doc"] for j in resolving]
+    resolving_any = [j["case"]["doc"] for j in resolving]
+    rng.shuffle(dangling)
+    for d in dangling[:(12 if chk.tier == "quick" else 80)]:
+        if not resolving_any:
+            break
+        a = rng.choice(resolving_bad if rng.random() < 0.7 else resolving_any)
+        seqs.append({"id": len(seqs), "docs": [a, d, a] if rng.random() < 0.5 else [d, a, d], "cont": True})
     # the same loaded document validated again (fresh validators): the first validation must not change what the next one sees
     for d in docs_only[:(40 if chk.tier == "quick" else 300)]:
         seqs.append({"id": len(seqs), "docs": [d], "cont": rng.random() < 0.7, "same_doc": True, "again": 3})
